@@ -7,6 +7,13 @@ import ClarabelProofs.Lemmas.QdldlPerm
 import ClarabelProofs.Lemmas.QdldlPermSym
 import ClarabelProofs.Lemmas.QdldlSolve
 import ClarabelProofs.Lemmas.QdldlSolveCsc
+import ClarabelProofs.Lemmas.QdldlEtree
+import ClarabelProofs.Lemmas.QdldlFactor
+import ClarabelProofs.Lemmas.QdldlFactorVal
+import ClarabelProofs.Lemmas.QdldlRefactor
+import ClarabelProofs.Lemmas.QdldlExamples
+import ClarabelProofs.Lemmas.QdldlFactorSolve
+import ClarabelProofs.Lemmas.QdldlPermTriu
 import ClarabelProofs.Lemmas.ScalarInst
 import Mathlib.Algebra.Order.Field.Basic
 
@@ -496,6 +503,322 @@ example :
     ∃ (s : FState ℝ) (rp : RegParams ℝ), s.D[0]? = some 0 ∧
       (rp.enable = true → rp.Dsigns[0]? = some (-1)) ∧ 0 < s.Dinv.size :=
   ⟨⟨#[0, 0], #[], #[], #[0], #[0], #[false], #[0], #[0], 0, 0⟩, ⟨#[-1], true, 1/2, 1/4⟩, by simp⟩
+
+
+/-! ### Round 3: the elimination tree and `_factor_inner` on arbitrary patterns
+
+`Lpat A k i` (`Lemmas/QdldlEtree.lean`) is the structural nonzero pattern of the strict lower
+triangle of the factor: `L[k,i]` is structurally nonzero iff `A[i,k]` is stored (`i < k`) or there
+is `j < i` with `L[i,j]` and `L[k,j]` structurally nonzero (symbolic elimination).  `Apat Ap Ai i k`
+says that `(i, k)` is stored in the CSC pattern; `TriuCsc n Ap Ai` is what `check_structure` and
+the CSC format give (`triuCsc_of_checks`); `Lrows A n c` lists the rows of column `c` of `L`. -/
+
+/-- [S] `check_structure = Ok` on a well-formed CSC matrix yields the structural hypothesis
+`TriuCsc` of the theorems below (`colptr` has `n+1` monotone entries inside `rowval`, every stored
+row index of column `k` is `≤ k`); the error cases are exactly those of `check_structure`. -/
+theorem triuCsc_of_checks (A : Csc α) (hw : wellFormed A = true) (hc : checkStructure A = .ok ()) :
+    TriuCsc A.n A.colptr A.rowval := TriuCsc.of_checks A hw hc
+
+/-- [S] the matrix `triuA` produced by `permute_symmetric` (for any ordering vector that passes its
+range checks) is again structurally valid: square of the same size, `colptr` monotone with `n+1`
+entries inside `rowval`, every stored row index of column `k` is `≤ k`.  Hence `etree_correct`,
+`factor_structure`, `factor_correct`, … apply to the `triuA` that `_qdldl_new` factors.
+(Non-vacuity: the `permuteSymmetric … = .ok …` example above.) -/
+theorem permute_symmetric_triu [OfNat α 0] (A : Csc α) (iperm : Array Nat) (P : Csc α)
+    (map : Array Nat) (h : permuteSymmetric A iperm = .ok (P, map)) :
+    P.n = A.n ∧ TriuCsc P.n P.colptr P.rowval := permuteSymmetric_triuCsc A iperm P map h
+
+/-- [S] (holds at `Float`; no scalar involved) **`_etree` computes the elimination tree and the
+column counts.**  For every structurally valid upper-triangular pattern the model of `_etree`
+returns without error, and for every column `c < n`:
+`etree[c] = p` iff `p` is the least row of column `c` of the symbolic factor (the
+elimination-tree parent), `etree[c]` is unknown iff the column is empty, a parent is larger than
+its child and `< n`, and `Lnz[c]` is the number of strict-lower entries of column `c` of `L`. -/
+theorem etree_correct (n : Nat) (Ap Ai : Array Nat) (hA : TriuCsc n Ap Ai) :
+    ∃ es, etree n Ap Ai = .ok es ∧ es.etree.size = n ∧ es.Lnz.size = n ∧
+      (∀ c, c < n → ∀ p, es.etree.getD c none = some p ↔
+        (Lpat (Apat Ap Ai) p c ∧ ∀ r, Lpat (Apat Ap Ai) r c → p ≤ r)) ∧
+      (∀ c, c < n → (es.etree.getD c none = none ↔ ∀ r, ¬ Lpat (Apat Ap Ai) r c)) ∧
+      (∀ c, c < n → ∀ p, es.etree.getD c none = some p → c < p ∧ p < n) ∧
+      (∀ c, c < n → es.Lnz.getD c 0 = (Lrows (Apat Ap Ai) n c).length) := by
+  obtain ⟨es, hes, hI⟩ := etree_spec n Ap Ai hA
+  obtain ⟨_, hls, hsz, _, hsome, hnone, hcnt⟩ := hI
+  refine ⟨es, hes, hsz, hls, ?_, ?_, ?_, hcnt⟩
+  · intro c hc p
+    constructor
+    · intro h
+      exact ⟨(hsome c hc p h).2.2.1, (hsome c hc p h).2.2.2⟩
+    · rintro ⟨hL, hmin⟩
+      cases hq : es.etree.getD c none with
+      | none => exact absurd hL (hnone c hc hq p (Lpat_lt_n hA hL))
+      | some q =>
+        obtain ⟨_, _, hLq, hminq⟩ := hsome c hc q hq
+        have h1 := hmin q hLq
+        have h2 := hminq p hL
+        have : q = p := by omega
+        rw [this]
+  · intro c hc
+    constructor
+    · intro h r hL; exact hnone c hc h r (Lpat_lt_n hA hL) hL
+    · intro h
+      cases hq : es.etree.getD c none with
+      | none => rfl
+      | some q => exact absurd (hsome c hc q hq).2.2.1 (h q)
+  · intro c hc p h
+    exact ⟨(hsome c hc p h).1, (hsome c hc p h).2.1⟩
+
+/-- non-vacuity of `etree_correct` (and of `TriuCsc`): the 3×3 arrow pattern with fill -/
+example : TriuCsc 3 #[0, 1, 3, 5] #[0, 0, 1, 0, 2] := triuCsc_arrow3
+example : etree 3 #[0, 1, 3, 5] #[0, 0, 1, 0, 2] =
+    .ok ⟨#[2, 2, 2, 0, 0, 0, 0, 0, 0], #[2, 1, 0], #[some 1, some 2, none]⟩ := etree_arrow3
+
+section factor_general
+variable {α : Type} [Add α] [Sub α] [Mul α] [Div α] [Neg α] [OfNat α 0] [OfNat α 1] [LT α]
+  [DecidableLT α] [BEq α] [FloatLike α]
+
+/-- [S] (holds at `Float`) **`_factor_inner` on an arbitrary pattern: no panic, exact symbolic
+structure.**  Let the pattern be structurally valid, `etree/Lnz` the output of `_etree`, the
+buffers large enough (`Lp[n] ≤ |Li| = |Lx|`, `|D| = |Dinv| = n`) and `Dsigns` long enough when the
+regulariser is on.  Then the numeric factorisation either returns `ZeroPivot` or succeeds — it
+never indexes out of range (every `get_unchecked` site of the Rust code is in range) — and on
+success `Lp = cumsum Lnz`, column `c` of `L` occupies exactly its slot `Lp[c] .. Lp[c+1]` and
+lists the rows of column `c` of the symbolic factor in increasing order, and the work arrays
+`y_markers / y_vals` are left cleared (`UNUSED` / literal `0`).  (`Represents`: the stored values
+are those of a dense `a`, i.e. no column stores two different values for one position.) -/
+theorem factor_structure (n : Nat) (hn : 0 < n) (Ap Ai : Array Nat) (hA : TriuCsc n Ap Ai)
+    (Ax : Array α) (a : Nat → Nat → α) (hR : Represents n Ap Ai Ax a)
+    (es : EtreeState) (hes : etree n Ap Ai = .ok es)
+    (Li : Array Nat) (Lx D Dinv : Array α) (hLi : (cumsum es.Lnz).getD n 0 ≤ Li.size)
+    (hLx : Lx.size = Li.size) (hDs : D.size = n) (hDi : Dinv.size = n)
+    (rp : RegParams α) (hsg : rp.enable = true → n ≤ rp.Dsigns.size) :
+    (factorInner n Ap Ai Ax Li Lx D Dinv es.Lnz es.etree false rp = .error errZeroPivot ∨
+      ∃ s, factorInner n Ap Ai Ax Li Lx D Dinv es.Lnz es.etree false rp = .ok s) ∧
+    ∀ s, factorInner n Ap Ai Ax Li Lx D Dinv es.Lnz es.etree false rp = .ok s →
+      s.Lp = cumsum es.Lnz ∧ s.Li.size = Li.size ∧ s.Lx.size = Li.size ∧
+      (∀ c, c < n → (cumsum es.Lnz).getD (c + 1) 0 =
+        (cumsum es.Lnz).getD c 0 + (Lrows (Apat Ap Ai) n c).length) ∧
+      (∀ c, c < n → ∀ t r, (Lrows (Apat Ap Ai) n c)[t]? = some r →
+        s.Li.getD ((cumsum es.Lnz).getD c 0 + t) 0 = r) ∧
+      (∀ c, c < n → s.yMarkers.getD c false = false ∧ s.yVals.getD c 0 = 0) := by
+  obtain ⟨es', hes', hI⟩ := etree_spec n Ap Ai hA
+  have : es' = es := by rw [hes'] at hes; exact Except.ok.inj hes
+  subst this
+  have C := FCtx.of_etree hn hA hI
+  have h := factorInner_struct C Ax a hR Li Lx D Dinv hLi hLx hDs hDi rp hsg
+  refine ⟨h.1, fun s hs => ?_⟩
+  have hR' := h.2 s hs
+  refine ⟨hR'.lp, hR'.lisz, hR'.lxsz, ?_, hR'.li, fun c hc => ⟨hR'.mrk0 c hc, hR'.yv0 c hc⟩⟩
+  intro c hc
+  have := LpOf_succ es'.Lnz c (by rw [C.lsz]; exact hc)
+  rw [C.cnt c hc] at this
+  exact this
+
+/-- [S] (holds at `Float`: bit-identical) **`_factor_inner` is a function of the matrix, its
+elimination tree and the settings only.**  On every structurally valid pattern, two runs that
+differ only in the incoming contents of the `Li / Lx / D / Dinv` buffers (of the sizes allocated by
+`QDLDLFactorisation::new`: `|Li| = |Lx| = Lp[n]`, `|D| = |Dinv| = n`) return the same result — the
+same error or the same state in every field.  Generalises `factor_ignores_stale_D` to all
+buffers: `L`, `Dinv` and the work arrays carry no information from a previous factorisation into
+the next. -/
+theorem factor_independent_of_buffers (n : Nat) (hn : 0 < n) (Ap Ai : Array Nat) (hA : TriuCsc n Ap Ai)
+    (Ax : Array α) (a : Nat → Nat → α) (hR : Represents n Ap Ai Ax a)
+    (es : EtreeState) (hes : etree n Ap Ai = .ok es)
+    (Li Li' : Array Nat) (Lx Lx' D D' Dinv Dinv' : Array α)
+    (hLi : Li.size = (cumsum es.Lnz).getD n 0) (hLi' : Li'.size = Li.size)
+    (hLx : Lx.size = Li.size) (hLx' : Lx'.size = Li.size)
+    (hDs : D.size = n) (hDs' : D'.size = n) (hDi : Dinv.size = n) (hDi' : Dinv'.size = n)
+    (rp : RegParams α) (hsg : rp.enable = true → n ≤ rp.Dsigns.size) :
+    factorInner n Ap Ai Ax Li' Lx' D' Dinv' es.Lnz es.etree false rp =
+      factorInner n Ap Ai Ax Li Lx D Dinv es.Lnz es.etree false rp := by
+  obtain ⟨es', hes', hI⟩ := etree_spec n Ap Ai hA
+  have : es' = es := by rw [hes'] at hes; exact Except.ok.inj hes
+  subst this
+  exact factorInner_buffers_irrelevant (FCtx.of_etree hn hA hI) Ax a hR Li Li' Lx Lx' D D' Dinv Dinv'
+    hLi hLi' hLx hLx' hDs hDs' hDi hDi' rp hsg
+
+/-- [S] (holds at `Float`: bit-identical) **`refactor` = fresh factorisation, on every pattern.**
+Let `F` be a factorisation object whose `etree / Lnz` are the `_etree` output for its `triuA`
+and whose buffers have the sizes allocated by `_qdldl_new`.  Then `refactor F` — which reuses
+`L.colptr / L.rowval / L.nzval / D / Dinv` and the counters with whatever the previous
+factorisation (or a logical pass) left in them — returns exactly what `_factor` returns on the
+freshly allocated, zero-filled workspace that `_qdldl_new` builds for the same `triuA`
+(the right-hand side is literally the object `newWithOrdering` hands to `factor`).  Together
+with `update_commutes` (the `triuA` after `update/scale/offset_values` is the permuted updated
+matrix; pattern, `etree`, `Lnz` unchanged) this is "refactor after updates ≡ fresh
+factorisation of the updated matrix". -/
+theorem refactor_eq_fresh (F : Factorisation α) (a : Nat → Nat → α) (hn : 0 < F.triuA.n)
+    (hA : TriuCsc F.triuA.n F.triuA.colptr F.triuA.rowval)
+    (hR : Represents F.triuA.n F.triuA.colptr F.triuA.rowval F.triuA.nzval a)
+    (es : EtreeState) (hes : etree F.triuA.n F.triuA.colptr F.triuA.rowval = .ok es)
+    (hE : F.etree = es.etree) (hL : F.Lnz = es.Lnz)
+    (hLi : F.L.rowval.size = F.Lnz.toList.foldl (· + ·) 0) (hLx : F.L.nzval.size = F.L.rowval.size)
+    (hDs : F.D.size = F.triuA.n) (hDi : F.Dinv.size = F.triuA.n)
+    (hsg : F.rp.enable = true → F.triuA.n ≤ F.rp.Dsigns.size) :
+    refactor F =
+      factor { F with
+        L := { F.L with
+          colptr := (Array.replicate (F.triuA.n + 1) 0).setIfInBounds F.triuA.n (F.Lnz.toList.foldl (· + ·) 0)
+          rowval := Array.replicate (F.Lnz.toList.foldl (· + ·) 0) 0
+          nzval := Array.replicate (F.Lnz.toList.foldl (· + ·) 0) (0 : α) }
+        D := Array.replicate F.triuA.n (0 : α), Dinv := Array.replicate F.triuA.n (0 : α)
+        positiveInertia := 0, regularizeCount := 0, isSymbolic := false } false := by
+  obtain ⟨es', hes', hI⟩ := etree_spec F.triuA.n F.triuA.colptr F.triuA.rowval hA
+  have : es' = es := by rw [hes'] at hes; exact Except.ok.inj hes
+  subst this
+  have C := FCtx.of_etree hn hA hI
+  rw [← hE, ← hL] at C
+  have hsum : LpOf F.Lnz F.triuA.n = F.Lnz.toList.foldl (· + ·) 0 := by
+    have := cumsum_last F.Lnz
+    rw [C.lsz] at this
+    exact this
+  unfold refactor
+  symm
+  exact factor_buffers_irrelevant { F with isSymbolic := false } a C hR
+    ((Array.replicate (F.triuA.n + 1) 0).setIfInBounds F.triuA.n (F.Lnz.toList.foldl (· + ·) 0))
+    (Array.replicate (F.Lnz.toList.foldl (· + ·) 0) 0)
+    (Array.replicate (F.Lnz.toList.foldl (· + ·) 0) (0 : α))
+    (Array.replicate F.triuA.n (0 : α)) (Array.replicate F.triuA.n (0 : α)) 0 0
+    (by rw [hsum]; exact hLi) hLx hDs hDi (by simp [hLi]) (by simp [hLi]) (by simp) (by simp) hsg
+
+end factor_general
+
+section factor_field
+variable {α : Type} [Field α] [DecidableEq α] [LT α] [DecidableLT α] [FloatLike α]
+open BigOperators
+
+/-- [F] **`_factor_inner` computes the LDLᵀ factorisation on every sparsity pattern.**
+Let `(Ap, Ai, Ax)` be a structurally valid upper-triangular CSC matrix representing the dense
+symmetric `a` (entry `(i,k)`, `i ≤ k`, is `a i k`), `etree/Lnz` the output of `_etree`, and the
+buffers `Li, Lx, D, Dinv` of the right sizes *with arbitrary previous contents*.  If the numeric
+factorisation succeeds then, with `L r c = denseL Lp Li Lx r c` the dense meaning of the CSC
+output (unit diagonal implied) and `d = D`:
+* `(Lp, Li, Lx)` is strictly lower triangular (`LowerCsc`) and structurally inside `Lpat`;
+* for all `c < r < n`:  `L[r,c]·d[c] + Σ_{j<c} L[c,j]·(L[r,j]·d[j]) = a[c,r]`, i.e.
+  `((I+L) D (I+L)ᵀ)[r,c] = A[r,c]` — row `r` of `L` solves the triangular system of the
+  up-looking recurrence;
+* for all `r < n`: `d[r] = rule_r (a[r,r] − Σ_{j<r} (L[r,j]·d[j])·L[r,j])` where `rule_r` is the
+  pivot rule `regularizePivot` (the identity when the regulariser is off: then
+  `((I+L) D (I+L)ᵀ)[r,r] = A[r,r]`, `factor_correct_unregularized`);
+* `d[r] ≠ 0` and `Dinv[r] = 1/d[r]`;
+* `positive_inertia` is the number of positive entries of `D`, `regularize_count` the number
+  of rows on which the rule fired. -/
+theorem factor_correct (n : Nat) (hn : 0 < n) (Ap Ai : Array Nat) (hA : TriuCsc n Ap Ai)
+    (Ax : Array α) (a : Nat → Nat → α) (hR : Represents n Ap Ai Ax a)
+    (es : EtreeState) (hes : etree n Ap Ai = .ok es)
+    (Li : Array Nat) (Lx D Dinv : Array α) (hLi : (cumsum es.Lnz).getD n 0 ≤ Li.size)
+    (hLx : Lx.size = Li.size) (hDs : D.size = n) (hDi : Dinv.size = n)
+    (rp : RegParams α) (hsg : rp.enable = true → n ≤ rp.Dsigns.size) (s : FState α)
+    (hs : factorInner n Ap Ai Ax Li Lx D Dinv es.Lnz es.etree false rp = .ok s) :
+    LowerCsc n s.Lp s.Li s.Lx ∧ s.D.size = n ∧ s.Dinv.size = n ∧
+    (∀ r c, c < n → denseL s.Lp s.Li s.Lx r c ≠ 0 → Lpat (Apat Ap Ai) r c) ∧
+    (∀ r, r < n → ∀ c, c < r →
+      denseL s.Lp s.Li s.Lx r c * s.D.getD c 0 +
+        ∑ j ∈ Finset.range c, denseL s.Lp s.Li s.Lx c j * (denseL s.Lp s.Li s.Lx r j * s.D.getD j 0) = a c r) ∧
+    (∀ r, r < n → s.D.getD r 0 =
+      (regularizePivot rp.enable rp.eps rp.delta (rp.Dsigns.getD r 0)
+        (a r r - ∑ j ∈ Finset.range r,
+          (denseL s.Lp s.Li s.Lx r j * s.D.getD j 0) * denseL s.Lp s.Li s.Lx r j)).1) ∧
+    (∀ c, c < n → s.D.getD c 0 ≠ 0 ∧ s.Dinv.getD c 0 = 1 / s.D.getD c 0) := by
+  obtain ⟨es', hes', hI⟩ := etree_spec n Ap Ai hA
+  have : es' = es := by rw [hes'] at hes; exact Except.ok.inj hes
+  subst this
+  have C := FCtx.of_etree hn hA hI
+  obtain ⟨h1, h2, h3, h4, h5, h6, h7, _, _⟩ :=
+    factorInner_dense C Ax a hR Li Lx D Dinv hLi hLx hDs hDi rp hsg s hs
+  exact ⟨h1, h2, h3, h4, h5, h6, h7⟩
+
+/-- [F] regulariser off: the diagonal equations `Σ_{j<r} L[r,j]·d[j]·L[r,j] + d[r] = a[r,r]`
+complete `(I+L) D (I+L)ᵀ = A`. -/
+theorem factor_correct_unregularized (n : Nat) (hn : 0 < n) (Ap Ai : Array Nat) (hA : TriuCsc n Ap Ai)
+    (Ax : Array α) (a : Nat → Nat → α) (hR : Represents n Ap Ai Ax a)
+    (es : EtreeState) (hes : etree n Ap Ai = .ok es)
+    (Li : Array Nat) (Lx D Dinv : Array α) (hLi : (cumsum es.Lnz).getD n 0 ≤ Li.size)
+    (hLx : Lx.size = Li.size) (hDs : D.size = n) (hDi : Dinv.size = n)
+    (rp : RegParams α) (hoff : rp.enable = false) (s : FState α)
+    (hs : factorInner n Ap Ai Ax Li Lx D Dinv es.Lnz es.etree false rp = .ok s) :
+    ∀ r, r < n → (∑ j ∈ Finset.range r,
+        (denseL s.Lp s.Li s.Lx r j * s.D.getD j 0) * denseL s.Lp s.Li s.Lx r j) + s.D.getD r 0 = a r r := by
+  intro r hr
+  have h := (factor_correct n hn Ap Ai hA Ax a hR es hes Li Lx D Dinv hLi hLx hDs hDi rp
+    (by rw [hoff]; intro h; cases h) s hs).2.2.2.2.2.1 r hr
+  rw [hoff] at h
+  simp only [regularizePivot, Bool.false_eq_true, ↓reduceIte] at h
+  rw [h]; ring
+
+/-- [F] **positive inertia = number of positive pivots; regularisation count = number of rows on
+which the rule fired** — on every pattern, whatever the previous buffer contents. -/
+theorem positive_inertia_count (n : Nat) (hn : 0 < n) (Ap Ai : Array Nat) (hA : TriuCsc n Ap Ai)
+    (Ax : Array α) (a : Nat → Nat → α) (hR : Represents n Ap Ai Ax a)
+    (es : EtreeState) (hes : etree n Ap Ai = .ok es)
+    (Li : Array Nat) (Lx D Dinv : Array α) (hLi : (cumsum es.Lnz).getD n 0 ≤ Li.size)
+    (hLx : Lx.size = Li.size) (hDs : D.size = n) (hDi : Dinv.size = n)
+    (rp : RegParams α) (hsg : rp.enable = true → n ≤ rp.Dsigns.size) (s : FState α)
+    (hs : factorInner n Ap Ai Ax Li Lx D Dinv es.Lnz es.etree false rp = .ok s) :
+    s.positive = ((List.range n).filter (fun c => decide (0 < s.D.getD c 0))).length ∧
+    s.regularizeCount = ((List.range n).filter (fun r =>
+      (regularizePivot rp.enable rp.eps rp.delta (rp.Dsigns.getD r 0)
+        (a r r - ∑ j ∈ Finset.range r,
+          (denseL s.Lp s.Li s.Lx r j * s.D.getD j 0) * denseL s.Lp s.Li s.Lx r j)).2)).length := by
+  obtain ⟨es', hes', hI⟩ := etree_spec n Ap Ai hA
+  have : es' = es := by rw [hes'] at hes; exact Except.ok.inj hes
+  subst this
+  have C := FCtx.of_etree hn hA hI
+  obtain ⟨_, _, _, _, _, _, _, h8, h9⟩ :=
+    factorInner_dense C Ax a hR Li Lx D Dinv hLi hLx hDs hDi rp hsg s hs
+  exact ⟨h8, h9⟩
+
+/-- [F] **factor, then solve: `A x = b` on every pattern** (regulariser off).  Composition of
+`factor_correct` with `solve_correct_csc`: if `_factor_inner` succeeds on the CSC matrix
+representing the symmetric `A` (`A i j = a (min i j) (max i j)`), then `_solve` run with the
+arrays it produced (`Lp, Li, Lx, Dinv`) on a right-hand side `b` does not fail and returns `x`
+with `A x = b`.  (For the permuted matrix `triuA = ΠAΠ'`; the permutation wrapper of `solve`
+is `solve_correct_csc` with `σ = perm`.) -/
+theorem factor_solve_correct (n : Nat) (hn : 0 < n) (Ap Ai : Array Nat) (hA : TriuCsc n Ap Ai)
+    (Ax : Array α) (a : Nat → Nat → α) (hR : Represents n Ap Ai Ax a)
+    (es : EtreeState) (hes : etree n Ap Ai = .ok es)
+    (Li : Array Nat) (Lx D Dinv : Array α) (hLi : (cumsum es.Lnz).getD n 0 ≤ Li.size)
+    (hLx : Lx.size = Li.size) (hDs : D.size = n) (hDi : Dinv.size = n)
+    (rp : RegParams α) (hoff : rp.enable = false) (s : FState α)
+    (hs : factorInner n Ap Ai Ax Li Lx D Dinv es.Lnz es.etree false rp = .ok s)
+    (b : Fin n → α) (tmp : Array α) (hts : tmp.size = n) (htmp : ∀ i : Fin n, tmp.getD i 0 = b i) :
+    ∃ t : Array α, solveRaw s.Lp s.Li s.Lx s.Dinv tmp = .ok t ∧ t.size = n ∧
+      Matrix.mulVec (Matrix.of fun i j : Fin n => a (min i.val j.val) (max i.val j.val))
+        (fun r => t.getD r 0) = b := by
+  obtain ⟨hcsc, _, hDisz, _, hoffd, _, hnz⟩ := factor_correct n hn Ap Ai hA Ax a hR es hes Li Lx D Dinv
+    hLi hLx hDs hDi rp (by rw [hoff]; intro h; cases h) s hs
+  have hdiag := factor_correct_unregularized n hn Ap Ai hA Ax a hR es hes Li Lx D Dinv hLi hLx hDs hDi rp
+    hoff s hs
+  exact solve_correct_csc s.Lp s.Li s.Lx s.Dinv hcsc hDisz (fun i => s.D.getD i 0)
+    (fun i => (hnz i i.isLt).1) (fun i => (hnz i i.isLt).2)
+    (Matrix.of fun i j : Fin n => a (min i.val j.val) (max i.val j.val)) (Equiv.refl _)
+    (fun i j => ldl_matrix_form n (denseL s.Lp s.Li s.Lx) (fun j => s.D.getD j 0) a
+      (fun r c hc hrc => denseL_upper hcsc r c hc hrc) hoffd hdiag i j)
+    b tmp hts htmp
+
+/-- non-vacuity of `factor_correct / positive_inertia_count`: the hypotheses hold for the 3×3
+arrow matrix `[[4,1,1],[1,3,·],[1,·,2]]` over `ℝ` (pattern with fill), and the factorisation
+succeeds (`factor_correct_partial_3x3_fill` exhibits the result). -/
+example : Represents 3 #[0, 1, 3, 5] #[0, 0, 1, 0, 2] (#[4, 1, 3, 1, 2] : Array ℝ)
+    (denseOf #[0, 1, 3, 5] #[0, 0, 1, 0, 2] (#[4, 1, 3, 1, 2] : Array ℝ)) := represents_arrow3
+
+/-- non-vacuity of `factor_independent_of_buffers / refactor_eq_fresh`: a factorisation object for
+the 3×3 arrow matrix with stale (nonsense) buffer contents satisfies every hypothesis -/
+example : ∃ (F : Factorisation ℝ) (a : Nat → Nat → ℝ) (es : EtreeState), 0 < F.triuA.n ∧
+    TriuCsc F.triuA.n F.triuA.colptr F.triuA.rowval ∧
+    Represents F.triuA.n F.triuA.colptr F.triuA.rowval F.triuA.nzval a ∧
+    etree F.triuA.n F.triuA.colptr F.triuA.rowval = .ok es ∧ F.etree = es.etree ∧ F.Lnz = es.Lnz ∧
+    F.L.rowval.size = F.Lnz.toList.foldl (· + ·) 0 ∧ F.L.nzval.size = F.L.rowval.size ∧
+    F.D.size = F.triuA.n ∧ F.Dinv.size = F.triuA.n ∧
+    (F.rp.enable = true → F.triuA.n ≤ F.rp.Dsigns.size) :=
+  ⟨{ perm := #[0, 1, 2], iperm := #[0, 1, 2], L := ⟨3, 3, #[7, 7, 7, 7], #[9, 9, 9], #[8, 8, 8]⟩,
+     D := #[5, 5, 5], Dinv := #[6, 6, 6], etree := #[some 1, some 2, none], Lnz := #[2, 1, 0],
+     triuA := ⟨3, 3, #[0, 1, 3, 5], #[0, 0, 1, 0, 2], #[4, 1, 3, 1, 2]⟩, AtoPAPt := #[0, 1, 2, 3, 4],
+     rp := ⟨#[1, 1, 1], true, 0, 0⟩, positiveInertia := 17, regularizeCount := 4, isSymbolic := true },
+   denseOf #[0, 1, 3, 5] #[0, 0, 1, 0, 2] (#[4, 1, 3, 1, 2] : Array ℝ), _,
+   by decide, triuCsc_arrow3, represents_arrow3, etree_arrow3, rfl, rfl, rfl, rfl, rfl, rfl,
+   fun _ => by decide⟩
+
+end factor_field
 
 /-- documented, not part of C12's claim: the asserting twin `algebra::utils::invperm` still
 uses `b[j] == 0` as "unset" and so accepts a repeated index whose first occurrence is at
